@@ -41,11 +41,12 @@ func TestStaleRetryCheck(t *testing.T) {
 	}
 }
 
-// listener-order: Closed->Open (thread 1) is reported before the HalfOpen->Closed (thread 0) that preceded it.
-func TestListenerOrder(t *testing.T) {
+// Not a finding (the property makes no claim about the arrival order of different threads' listener calls), kept as a
+// regression for the step model: Closed->Open (thread 1) is reported before the HalfOpen->Closed (thread 0) that preceded it.
+func TestListenerCallsCanReorder(t *testing.T) {
 	r := runOps("case a\ncb.new ec 10 1 1 0 0\nthread 0 c:1:err\nsched\nsched tick:10\nthread 0 tp\nsched\nthread 0 c:1:ok\nthread 1 c:1:err\n" +
 		"sched 0 0 0 0 1 1 1 1 0\nresults\nlog\nfinal\n")
 	if r["log"] != "[C>O@0,O>H@0,C>O@1,H>C@0]" {
-		t.Fatalf("finding no longer reproduces: %v", r)
+		t.Fatalf("listener calls no longer arrive in this order: %v", r)
 	}
 }
